@@ -372,18 +372,22 @@ func cmdDump(args []string) {
 // mergeContracts: several contract blocks for one function (one per property) are merged; the
 // postconditions of each block stay attached to that block's properties.
 func mergeContracts(dst, src *Contract) {
-	tag := func(cls []Clause, props []string) []Clause {
+	tag := func(cls []Clause, props []string, own bool) []Clause {
 		for i := range cls {
 			if cls[i].Props == nil {
 				cls[i].Props = props
+				cls[i].OwnOnly = own
 			}
 		}
 		return cls
 	}
-	dst.Ensures = tag(dst.Ensures, dst.Props)
-	dst.Asserts = tag(dst.Asserts, dst.Props)
-	dst.Ensures = append(dst.Ensures, tag(src.Ensures, src.Props)...)
-	dst.Asserts = append(dst.Asserts, tag(src.Asserts, src.Props)...)
+	// `flag own-props-only` on a block: its postconditions are exported to callers only in checks of its own properties
+	dst.Ensures = tag(dst.Ensures, dst.Props, dst.Flags["own-props-only"])
+	dst.Asserts = tag(dst.Asserts, dst.Props, false)
+	dst.Ensures = append(dst.Ensures, tag(src.Ensures, src.Props, src.Flags["own-props-only"])...)
+	dst.Asserts = append(dst.Asserts, tag(src.Asserts, src.Props, false)...)
+	delete(src.Flags, "own-props-only")
+	delete(dst.Flags, "own-props-only")
 	dst.Requires = append(dst.Requires, src.Requires...)
 	dst.Honest = append(dst.Honest, src.Honest...)
 	dst.Modifies = append(dst.Modifies, src.Modifies...)
